@@ -110,10 +110,16 @@ package ack
 //@ func (expiration.List).Expire(l expiration.List, now time.Time) (out []interface{})
 //@   modifies #tmo
 //@   ensures forall i int :: {out[i]} 0 <= i && i < len(out) ==> typeis(out[i], gotomic.StringKey)
+//@   records #lastExpiredN := len(out)
+// C04 / C03 ("'expired' at the first expiry sweep after its deadline", "sent again every time its acknowledgement deadline
+// passes"): the sweep tries to take EVERY key the timeout list reports out of the table -- the list has already dropped them, so
+// an entry that is skipped here is never reported again and stays in flight for ever
 //@ func (*queue).Expire(now time.Time)
 //@   requires wf_queue(q)
+//@   ensures [C04] #tabDeletes == old(#tabDeletes) + #lastExpiredN
 //@ loop (*queue).Expire#1
 //@   invariant -1 <= rangeindex && rangeindex < 1152921504606846976 && q != nil && q.msg != nil && q.timeouts != nil
+//@   invariant [C04] #tabDeletes == old(#tabDeletes) + rangeindex + 1 && rangeindex < #lastExpiredN
 //@ callsite (*queue).Expire -> message.callback(expired bool, stored packet.Packet, received packet.Packet)
 //@   requires [C20] #lastDelOk
 //@   requires expired && received == nil && !#tab[asiface(key)]
